@@ -61,6 +61,8 @@ def gen(rng, tier, i):
     return plan
 
 
+gen = _gen.with_lines(gen, ['_service_task', 'disconnect', 'close', '_get_socket', 'send', 'handle_request', '_handle_connect'])
+
 def run(plan, sched_values=None, sched_seed=0):
     h = run_server_scenario(plan, sched_values, sched_seed)
     f = oracles.Facts(h)
